@@ -32,6 +32,8 @@ for _pid, _cfgs in {'C04': ['BufferL2', 'BufferL2_nocool', 'BufferL2_fixed', 'Bu
     F[_pid] = dict(F[_pid])
     F[_pid]['mc_quick'] = list(F[_pid]['mc_quick']) + [('BufferL2', c) for c in _cfgs]
     F[_pid]['mc_thorough'] = list(F[_pid]['mc_thorough']) + [('BufferL2', c) for c in _cfgs] + [('BufferL2', 'BufferL2_big')]
+# C01: a large population (one batch of > 1000 values, one large shift), free-running only
+F['C01'] = dict(F['C01'], legs=[dict(driver='buffer', profile='bulk', prop='fifo', tv='BufferTV', n=(0, 2, 0, 8), mc_quick=[], mc_thorough=[])])
 # C05: WaitCond on its own (any cond / locker, nil context, invalid arguments): lost wake-ups at exact quiescence, "nil only
 # after the predicate returned true with the lock held", watcher goroutine gone once WaitCond has returned
 F['C05']['legs'] = [dict(driver='waitcond', profile='main', prop='all', tv='WaitCondTV', n=(160, 200, 2000, 6000), mc_quick=[], mc_thorough=[])]
